@@ -275,11 +275,45 @@ pub fn sweep_vals(ctx: &Ctx, ty: &Ty) -> Vec<Val> {
     }
     let Ty::Adt(i, args) = ty else { return vec![] };
     let def = &ctx.u.adts[*i];
+    if ctx.u.label == "extra" && (def.name == "G1" || def.name == "Tail") {
+        // payloads of more than a mebibyte (and exactly one mebibyte) for the three designated subjects
+        let big = |elem: Val, n: usize| Val::Seq(vec![elem; n]);
+        let payloads: Vec<Val> = match args.first() {
+            Some(Arg::Ty(Ty::Vec(e))) if **e == Ty::Prim(vmodel::ty::Prim::U64) => {
+                let x = Val::P(0x0102_0304_0506_0708u64.to_ne_bytes().to_vec());
+                vec![big(x.clone(), 131_072), big(x, 140_001)]
+            }
+            Some(Arg::Ty(Ty::BoxSlice(e))) if **e == Ty::Prim(vmodel::ty::Prim::U32) => {
+                let x = Val::P(0xA1B2_C3D4u32.to_ne_bytes().to_vec());
+                vec![big(x, 300_007)]
+            }
+            Some(Arg::Ty(Ty::String)) => vec![Val::Str("0123456789abcdef".repeat(65_536)), Val::Str("épsilon-serde ".repeat(110_000))],
+            _ => vec![],
+        };
+        let base = vmodel::val::min_val(ctx.u, ty);
+        return payloads
+            .into_iter()
+            .map(|pl| {
+                let mut f = base.seq().to_vec();
+                f[0] = pl;
+                if f.len() > 1 {
+                    // make the fields after the payload non-trivial
+                    for x in f.iter_mut().skip(1) {
+                        if let Val::P(b) = x {
+                            for (k, y) in b.iter_mut().enumerate() {
+                                *y = 0x11 * (k as u8 + 1);
+                            }
+                        }
+                    }
+                }
+                Val::Rec(f)
+            })
+            .collect();
+    }
     if def.name != "Pre" && def.name != "PreFull" {
         return vec![];
     }
     let fields = ctx.u.inst_fields(*i, args, 0);
-    let _ = Arg::Const;
     // a representative non-trivial value for the other fields
     let strat = vmodel::val::val_strategy(ctx.u, ty, vmodel::val::GenCfg { max_len: 3, long: false });
     let base = crate::runner::sample_vals(ctx, &["sweep", &def.name], &strat, 2);
